@@ -364,7 +364,7 @@ class BaseSamples:
         if not all(s.dtype == samples[0].dtype for s in samples):
             raise ValueError("Dtypes do not match")
         xp = samples[0].xp
-        return cls(
+        out = cls(
             x=xp.concatenate([s.x for s in samples], axis=0),
             log_likelihood=xp.concatenate(
                 [s.log_likelihood for s in samples], axis=0
@@ -380,6 +380,15 @@ class BaseSamples:
             parameters=samples[0].parameters,
             dtype=samples[0].dtype,
         )
+        # Carry set-level attributes (temperature, evidence) that all pieces
+        # share, e.g. when re-assembling a partition of one sample set
+        for name in ("beta", "log_evidence", "log_evidence_error"):
+            values = [getattr(s, name, None) for s in samples]
+            if values[0] is not None and all(
+                v is not None and bool(v == values[0]) for v in values
+            ):
+                setattr(out, name, values[0])
+        return out
 
     @classmethod
     def from_samples(cls, samples: BaseSamples, **kwargs) -> BaseSamples:
